@@ -1,57 +1,249 @@
-"""AST-level construct mutations of meta-model source texts (used by C01/C02/C03 explorations).
+"""AST-level construct mutations of meta-model source texts (used by the C01 exploration).
 
-`mutants(text, rng, n)` parses a VALID meta-model, picks a position (expression, statement, string
-constant, identifier, class bases, import) and substitutes a construct from a catalogue of rarely
-written but syntactically valid Python constructs, then `ast.unparse`s the module.  The catalogue is
-seed independent; `enumerate_mutants(text)` walks every (position, catalogue entry) pair.
+Two engines over the same catalogues of rarely written, but syntactically valid Python constructs:
+
+* **positional** (`_apply`, `random_mutant`, `enumerate_mutants`): parse a VALID meta-model, pick a position by number
+  (any expression, statement list, string constant, identifier, class bases) and substitute a catalogue entry;
+* **role based** (`slots`, `apply_role`, `enumerate_roles`, `random_role_mutant`): positions are classified by the ROLE
+  they play for the front end (the places ``parse/_translate.py``, ``parse/_rules.py``, ``intermediate/construction.py``,
+  ``intermediate/_translate.py`` and ``intermediate/pattern_verification.py`` dispatch on): class/method/function
+  decorators, the condition/body/description of an invariant, contract conditions, annotations of properties /
+  arguments / results / constants, argument defaults, argument lists, enumeration literal values, constructor
+  statements and the values they assign, arguments to super constructors, bodies of verification functions and
+  of methods, elements of ``constant_set(values=…, superset_of=…)``, docstrings in each of their positions, the
+  defining occurrence of every kind of name (renamed alone, or consistently through the model).  ``enumerate_roles``
+  walks role x catalogue, which gives a seed-independent slice that puts every construct class into every role.
+
+Everything is re-rendered with ``ast.unparse``; the catalogues are seed independent.
 """
 from __future__ import annotations
 
 import ast
-import copy
-from typing import Any, Iterator, List, Optional, Tuple
+import warnings
+from typing import Any, Callable, Dict, Iterator, List, Optional, Sequence, Tuple
 
-EXPRS = [
-    "None", "0", "-1", "1.5", "True", "''", "b''", "'x'", "...", "x", "self", "self.x", "self.x.y.z", "x[0]", "x[0:1]", "x[0, 1]",
-    "[]", "[1]", "()", "(1, 2)", "{}", "{1}", "{'a': 1}", "-x", "not x", "x + 1", "x - 1", "x * 2", "x ** 2", "x @ y", "x // 2",
-    "x < y < z", "x == y", "x != y", "x is y", "x is None", "x is not None", "x in y", "x not in y", "x and y", "x or y", "not x or y",
-    "x if y else z", "x if x is not None else []", "[] if x is None else list(x)", "[] if x is None else x", "lambda: 0", "lambda a, b: a",
-    "f()", "f(x)", "f(x, y)", "f(*x)", "f(**x)", "f(a=1)", "f()(x)", "x.f()", "x.f(y)", "len(x)", "len()", "len(x, y)", "match(x, y)",
-    "match(x)", "all(a for a in x)", "any(a for a in x)", "all(a for a in x if a)", "all(a for a in x for b in a)", "all([a for a in x])",
-    "any(a > 0 for a in range(len(x)))", "any(a for a in range(1))", "any(a for a in range(1, 2, 3))", "(a for a in x)", "[a for a in x]",
-    "{a for a in x}", "{a: a for a in x}", "f'{x}'", "f'^{x}$'", "f'{x!r}'", "f'{x:>3}'", "f''", "'a' 'b'", "(y := x)", "*x", "await x",
-    "yield", "Optional[int]", "List[int]", "Optional", "List", "Optional[int, str]", "List[Optional[int]]", "Optional[Optional[int]]",
-    "List[List[int]]", "Dict[str, int]", "'List[A]'", "int", "str", "bytearray", "Set[str]", "Enum", "DBC", "a.b.C", "typing.List[int]",
+# ------------------------------------------------------------------------------------------------ catalogues
+
+#: one representative (or a few) for every ``ast`` expression class, in the shapes the front end looks at
+CORE_EXPRS = [
+    "None", "0", "-1", "1.5", "True", "''", "b''", "'x'", "...", "1j", "2 ** 70", "x", "self", "self.x", "self.x.y.z", "x[0]", "x[0:1]",
+    "x[0, 1]", "x[()]", "[]", "[1]", "[x]", "()", "(1, 2)", "{}", "{1}", "{'a': 1}", "-x", "+x", "~x", "not x", "x + 1", "x - 1", "x * 2",
+    "x ** 2", "x @ y", "x // 2", "x % 2", "x | y", "x < y < z", "x == y", "x != y", "x is y", "x is None", "x is not None", "x in y",
+    "x not in y", "x and y", "x or y", "not x or y", "x if y else z", "lambda: 0", "lambda a, b: a", "f()", "f(x)", "f(*x)", "f(**x)",
+    "f(a=1)", "f()(x)", "x.f()", "x[0](y)", "'a'(x)", "(x - 1)(y)", "len(x)", "all(a for a in x)", "(a for a in x)", "[a for a in x]",
+    "{a for a in x}", "{a: a for a in x}", "f'{x}'", "f''", "'a' 'b'", "(y := x)", "*x", "await x", "yield", "yield from x", "E.a", "E.a.b",
+    "Größe", "x.größe",
 ]
 
+#: the shapes the parse rules and the constructor understanding match on (near hits and near misses)
+RULE_EXPRS = [
+    "x[-1]", "x[0][1]", "x[y]", "x['a']", "x > 0", "x >= 0", "0 < x", "x < y", "len(x) > 0", "len(x) == 1", "len()", "len(x, y)", "len(x=1)",
+    "match(x, y)", "match(x)", "match()", "match(x, y, 0)", "match(x, y) is not None", "match(x, y) is None", "match(y, x) is not None",
+    "match('^a$', x) is not None", "match(f'^{y}$', x) is not None", "match(x, x) is not None", "not match(x, y)", "re.match(x, y) is not None",
+    "re.compile(x)", "all(a for a in x if a)", "all(a for a in x for b in a)", "all([a for a in x])", "all(x)", "all()", "all(a for a in x, 1)",
+    "all(a > 0 for a in range(len(x)))", "any(a for a in range(1))", "any(a for a in range(1, 2, 3))", "any(a for a in range(0, len(x)))",
+    "all(a for (a, b) in x)", "all(a async for a in x)", "any(self.x[i] == 0 for i in range(0, 2))", "all(all(b for b in a) for a in x)",
+    "all(x for x in x)", "all(self for self in x)", "not (x is not None) or len(x) >= 1", "not x or not y or z", "(not x) or y",
+    "not (not x or y)", "not not x", "x is not None and y is not None", "(x is None) == (y is None)", "x is True", "x is not y", "None is x",
+    "x == None", "x in [1, 2]", "x in Some_kinds", "self.x in Some_strings", "self in x", "x.y in z.w", "x + y + z", "x - -1", "'a' + 'b'",
+    "-True", "-1.5", "-(1)", "- -1", "-x.y", "f'{x!r}'", "f'{x!s}'", "f'{x:>3}'", "f'{x:{y}}'", "f'{x}{y}'", "f'^{x}$'", "f'{f()}'",
+    "f'{f\"{x}\"}'", "f'{x.y}'", "f'{1}'", "f'{{}}'", "x if x is not None else []", "[] if x is None else x", "x if x is not None else [1]",
+    "x if x is not None else E.a", "x if x is not None else Kind.One", "x if x is not None else Kind.Three", "x if x is not None else A.x",
+    "y if x is not None else []", "x if y is not None else []", "x if x is None else []", "x if x else []", "x if x is not None else None",
+    "x if x is not None else ''", "x if x is not None else list()", "[] if x is None else list(x)", "x or []", "list(x)", "x.copy()",
+    "self.f()", "self.x.f(1)", "self.f(self)", "A.__init__(self)", "A.__init__(self, x)", "super().__init__()", "self.__class__",
+    "x.__init__", "OLD.x", "result", "OLD", "re", "self.self", "lambda self: True", "lambda self: self.x", "lambda x=1: x", "lambda *a: 0",
+    "lambda **k: 0", "lambda a, /: a", "lambda *, a: a", "int('1')", "str(x)", "bool(x)", "float('nan')", "Kind('one')", "Kind.One",
+    "Kind.One.value", "Kind['One']", "Some_text", "Some_kinds", "matches_something", "matches_something(x)", "matches_something(self.z)",
+    "is_special(self.z)", "is_special()", "unknown_function(x)", "A(x)", "B", "1 if x else 2", "(x, y) == (1, 2)", "x == y == z",
+    "x < y > z", "x in y in z", "1 < 2", "'a' < 'b'", "True and False", "x and (y or z)", "x or y or z", "x and y and z",
+]
+
+TYPE_EXPRS = [
+    "int", "str", "bool", "float", "bytearray", "bytes", "object", "Any", "None", "A", "B", "Kind", "Code", "Unknown", "Some_text", "matches_something",
+    "Optional[int]", "List[int]", "Set[int]", "Set[str]", "Set[Kind]", "Optional", "List", "Set", "Optional[int, str]", "List[int, str]",
+    "Optional[()]", "List[()]", "Optional[int,]", "List[Optional[int]]", "Optional[Optional[int]]", "List[List[int]]",
+    "Optional[List[Optional[List[int]]]]", "List[Optional[int, str]]", "Optional[List[int, str]]", "List[Set[int]]", "Optional[Set[str]]",
+    "Dict[str, int]", "Tuple[int, str]", "Final[int]", "Optional[A]", "List[A]", "List[Kind]", "Optional[Code]", "Optional[Unknown]",
+    "List['A']", "'A'", "'int'", "'List[A]'", "'Optional[int]'", "''", "' A'", "'a.B'", "'Größe'", "b'A'", "1", "Optional[1]", "Optional['']",
+    "Optional[None]", "int | None", "List[int] | None", "a.B", "typing.List[int]", "typing.Optional[int]", "List[a.B]", "Optional[int][0]",
+    "List[0:1]", "List[int, 0:1]", "Optional[...]", "Optional[[int]]", "List[*x]", "A[int]", "Kind[str]", "int[str]", "Optional[f()]",
+    "Optional[lambda: 0]", "List[self]", "Optional[DBC]", "Enum", "DBC", "List[Enum]",
+]
+
+EXPRS = CORE_EXPRS + RULE_EXPRS + TYPE_EXPRS
+
 STMTS = [
-    "pass", "...", "x = 1", "x: int = 1", "x: int", "x += 1", "x = y = 1", "(x, y) = (1, 2)", "self.x = x", "self.x = self.x",
-    "self.x = x if x is not None else []", "self.x = [] if x is None else list(x)", "self.x: int = x", "self.x.y = x", "x.y = 1",
-    "del x", "return", "return 1", "raise ValueError()", "assert x", "global x", "import os", "from . import List", "from .. import x",
-    "from .typing import List", "from typing import List", "from typing import *", "from typing import List as L", "import typing as t",
-    "from icontract import invariant", "if x:\n    pass", "for x in y:\n    pass", "while x:\n    pass", "with x:\n    pass",
-    "try:\n    pass\nexcept Exception:\n    pass", "def f():\n    pass", "def __init__(self) -> None:\n    pass", "async def f():\n    pass",
-    "class Z:\n    pass", "class Z(Enum):\n    a = 1", "lambda: 0", "f()", "super().__init__()", "super().__init__(x)", "A.__init__(self)",
-    "A.__init__(self, x, y=1)", "A.__init__(*x)", "B.__init__(self, x)", "'docstring'", "f'docstring'", "b'bytes'", "1", "yield",
-    "@abstract\nclass Z:\n    pass", "@f\ndef g():\n    pass", "@invariant(lambda self: True, 'd')\nclass Z:\n    pass",
-    "X: Set[str] = constant_set(values=['a'])", "X: str = constant_str(value='a')", "X = constant_str(value='a')", "X: Y = 1",
+    "pass", "...", "x = 1", "x: int = 1", "x: int", "x += 1", "x = y = 1", "(x, y) = (1, 2)", "[x, y] = z", "*x, y = z", "self.x = x",
+    "self.x = self.x", "self.x = y", "self.y = x", "self.x = x if x is not None else []", "self.x = [] if x is None else list(x)",
+    "self.x = x if x is not None else Kind.One", "self.y = y if y is not None else []", "self.x: int = x", "self.x.y = x", "x.y = 1",
+    "self.x = self.y = x", "self.x += x", "self[0] = x", "self.x, self.y = (x, y)", "self.x = 1", "self.x = None", "self.x = f(x)",
+    "self.unknown = x", "self.unknown = unknown", "del x", "return", "return 1", "return x", "return self.x", "return self.x > 10", "return True",
+    "return None", "return match(pattern, text) is not None", "return match('^a$', text) is not None", "return match(pattern, text)",
+    "return match(text, text) is not None", "return match(pattern, x) is not None", "return match(pattern) is not None",
+    "return match(pattern, text, 0) is not None", "return not match(pattern, text)", "return match(pattern, text) is None",
+    "return re.match(pattern, text) is not None", "return matches_something(text)", "return len(text) > 0", "return value > 0",
+    "return all(c == 'a' for c in text)", "pattern = 'a'", "pattern = f'^{prefix}$'", "pattern = prefix", "pattern = text", "text = 'a'",
+    "pattern = 1", "pattern = None", "pattern = 'a' + 'b'", "pattern = f'{1}'", "pattern = f'{text}'", "pattern = f'{unknown}'",
+    "pattern = '^a{4294967296}$'", "pattern = '('", "pattern = '['", "self.pattern = 'a'", "pattern[0] = 'a'", "pattern: str = 'a'",
+    "match = 'a'", "re = 'a'", "pattern", "'a'", "f'a'", "f'{x}'", "b'bytes'", "1", "None", "x", "self", "f()", "f(x)", "x.f()", "x > 0",
+    "raise ValueError()", "raise", "assert x", "assert x, 'message'", "global x", "nonlocal x", "import os", "import a.b as c", "from . import List",
+    "from .. import x", "from .typing import List", "from typing import List", "from typing import *", "from typing import List as L",
+    "import typing as t", "from icontract import invariant", "from icontract import DBC, invariant", "from re import match", "from re import compile",
+    "from enum import Enum", "from aas_core_meta.marker import abstract", "from aas_core_meta.marker import unknown", "from enum import IntEnum",
+    "from typing import Dict", "from icontract import snapshot", "if x:\n    pass", "if x:\n    pass\nelse:\n    pass", "for x in y:\n    pass",
+    "while x:\n    pass", "with x:\n    pass", "with x as y:\n    pass", "try:\n    pass\nexcept Exception:\n    pass",
+    "try:\n    pass\nfinally:\n    pass", "match x:\n    case 1:\n        pass", "type X = int", "def f():\n    pass",
+    "def f(self) -> None:\n    pass", "def f(self) -> int:\n    return 1", "def f(x: int) -> bool:\n    return x > 0",
+    "def __init__(self) -> None:\n    pass", "def __init__(self, x: int) -> None:\n    self.x = x", "def __init__(x: int) -> None:\n    pass",
+    "def __str__(self) -> str:\n    pass", "def __eq__(self, other: int) -> bool:\n    pass", "async def f():\n    pass",
+    "@verification\ndef g(x: int) -> bool:\n    return x > 0", "@verification\ndef g(self, x: int) -> bool:\n    return x > 0",
+    "@verification\ndef g(text: str) -> bool:\n    return match('^a$', text) is not None",
+    "@verification\n@implementation_specific\ndef g(self) -> bool:\n    pass", "@implementation_specific\ndef g(x: int) -> bool:\n    pass",
+    "@verification\ndef g() -> bool:\n    return True", "@verification\ndef g(x: int):\n    return True", "@verification\ndef g(x) -> bool:\n    return True",
+    "@verification\ndef g(x: int) -> None:\n    pass", "@verification\n@non_mutating\ndef g(x: int) -> bool:\n    return True",
+    "@non_mutating\ndef g(self) -> int:\n    return 1", "@f\ndef g():\n    pass", "@implementation_specific\ndef g(self) -> None:\n    pass",
+    "@implementation_specific\ndef __init__(self) -> None:\n    pass", "@verification\ndef __init__(self) -> None:\n    pass",
+    "@require(lambda x: x > 0)\ndef g(self, x: int) -> None:\n    pass", "@require(lambda y: y > 0)\ndef g(self, x: int) -> None:\n    pass",
+    "@ensure(lambda result: result > 0)\ndef g(self) -> int:\n    pass", "@ensure(lambda OLD: OLD.x > 0)\ndef g(self) -> int:\n    pass",
+    "@snapshot(lambda self: self.x, name='x')\n@ensure(lambda OLD: OLD.x > 0)\ndef g(self) -> int:\n    pass",
+    "One = 'three'", "Three = 'one'", "Three = 'three'", "Three = 3", "Three: str = 'three'", "One", "Three = One",
+    "@abstract\nclass Y1:\n    w: int\n\n\n@abstract\nclass Y2:\n    w: int\n\n\nclass Z(Y1, Y2):\n    pass",
+    "@abstract\nclass Y1:\n    w: int\n\n\n@abstract\nclass Y2:\n    w: str\n\n\n@abstract\nclass Z(Y1, Y2):\n    pass",
+    "@abstract\nclass Y1:\n    def g(self) -> int:\n        pass\n\n\n@abstract\nclass Y2:\n    def g(self) -> int:\n        pass\n\n\nclass Z(Y1, Y2):\n    pass",
+    "@abstract\nclass Y0:\n    w: int\n\n\n@abstract\nclass Y1(Y0):\n    pass\n\n\n@abstract\nclass Y2(Y0):\n    pass\n\n\n@abstract\nclass Z(Y1, Y2):\n    pass",
+    "class Z:\n    pass", "class Z(Enum):\n    a = 1", "class Z(Enum):\n    a = 'a'\n    a = 'b'", "class Z(Enum):\n    a = 'a'\n    b = 'a'",
+    "class Z(Enum):\n    pass", "class Z(A):\n    pass", "class Z(str):\n    pass", "class Z(str):\n    x: int", "class Z(Z):\n    pass",
+    "@abstract\nclass Z(str):\n    pass", "class Z(str, A):\n    pass", "class Z(A, A):\n    pass", "class Z(Unknown):\n    pass",
+    "class Z(Kind):\n    pass", "class Z(Code):\n    pass", "class Z(Code, A):\n    pass", "class Z(Code):\n    x: int",
+    "class Z(str):\n    def __init__(self) -> None:\n        str.__init__(self)", "class Z:\n    class Y:\n        pass",
+    "class Z:\n    x: int\n    x: int", "class Z:\n    def f(self) -> None:\n        pass\n    def f(self) -> None:\n        pass",
+    "class Z:\n    x: int\n    def x(self) -> None:\n        pass", "class A:\n    pass", "class Kind:\n    pass", "Kind = 1",
+    "class Z:\n    def __init__(self) -> None:\n        '''Do.'''\n        '''Do.'''", "class Z:\n    '''Do.'''\n    '''Do.'''",
+    "@abstract\nclass Z:\n    pass", "@abstract\n@implementation_specific\nclass Z:\n    pass", "@invariant(lambda self: True, 'd')\nclass Z:\n    pass",
+    "@serialization(with_model_type=True)\nclass Z:\n    pass", "@abstract\nclass Z(Enum):\n    a = 'a'", "lambda: 0", "super().__init__()",
+    "super().__init__(x)", "A.__init__(self)", "A.__init__(self, x)", "A.__init__(self, x, y)", "A.__init__(self, x, y=y)",
+    "A.__init__(self, x=x, y=y)", "A.__init__(self=self, x=x, y=y)", "A.__init__(x, y)", "A.__init__(self, y, x)", "A.__init__(self, x, y, y)",
+    "A.__init__(self, x, z=z)", "A.__init__(self, x, x=x)", "A.__init__(self, 1, 2)", "A.__init__(self, *x)", "A.__init__(self, **x)",
+    "A.__init__(self, x, y=1)", "A.__init__()", "B.__init__(self, x)", "Kind.__init__(self)", "Unknown.__init__(self)", "str.__init__(self)",
+    "int.__init__(self, x)", "DBC.__init__(self)", "a.b.__init__(self)", "f().__init__(self)", "A.f(self)", "A.__init__", "self.__init__(x)",
+    "yield", "await x", "X: Set[str] = constant_set(values=['a'])", "X: str = constant_str(value='a')", "X = constant_str(value='a')",
+    "X: Y = 1", "X: int = constant_str(value='a')", "X: str = constant_str(value=1)", "X: str = constant_str()", "X: str = 'a'", "X: str",
+    "X: Set[Kind] = constant_set(values=[Kind.One, Kind.One])", "X: Set[Kind] = constant_set(values=[Kind.Three])",
+    "X: Set[Kind] = constant_set(values=['one'])", "X: Set[str] = constant_set(values=[Kind.One])", "X: Set[A] = constant_set(values=[])",
+    "X: Set[Code] = constant_set(values=['a'])", "X: Set[str] = constant_set(values=['a'], superset_of=[X])",
+    "X: Set[str] = constant_set(values=['a'], superset_of=[Some_strings, Some_strings])", "X: Set[str] = constant_set(values=[], superset_of=[Some_strings])",
+    "X: Set[str] = constant_set(values=['a'], superset_of=[Some_kinds])", "X: Set[str] = constant_set(values=['a'], superset_of=[Some_text])",
+    "X: Set[str] = constant_set(values=['a'], superset_of=[Unknown])", "X: Set[int] = constant_set(values=[1, True, 1.0])",
+    "X: Set[str, int] = constant_set(values=[])", "X: Set = constant_set(values=[])", "X: List[str] = constant_set(values=[])",
+    "X: Optional[str] = constant_str(value='a')", "X: Set[List[str]] = constant_set(values=[])", "Some_text: str = constant_str(value='b')",
+    "A: str = constant_str(value='b')", "matches_something: str = constant_str(value='b')", "X.y: str = constant_str(value='b')",
+    "(X): str = constant_str(value='b')", "X: bytearray = constant_bytearray(value=b'a')", "X: float = constant_float(value=1)",
+    "X: int = constant_int(value=True)", "X: bool = constant_bool(value=1)", "X: int = constant_int(value=2 ** 70)",
+    "X: float = constant_float(value=1e400)", "X: int = constant_int(value=-1)", "__version__ = 1", "__version__ = 'a'\n__version__ = 'b'",
+    "__xml_namespace__ = 'a/'", "__xml_namespace__ = ' a'", "__xml_namespace__ = 'a\"b'", "__xml_namespace__ = ''", "__version__ = ''",
+    "__version__, __xml_namespace__ = ('a', 'b')", "__book_url__ = 'a'", "__book_version__ = 'a'", "__unknown__ = 'a'", "__version__: str = 'a'",
 ]
 
 DOCS = [
-    "", " ", "Do.", "Do\n\n:param x: y", ":param:", ":param: y", ":param x:", ":returns:", ":return: x", ":raises X: y", ":attr:`x`", ":attr:`A.x`",
-    ":attr:`A.x.y`", ":attr:`.x`", ":attr:`A.`", ":attr:`x()`", ":attr:`some-x`", ":attr:``", ":class:`A`", ":class:`~A`", ":class:`a.b.A`",
-    ":class:``", ":class:`A B`", ":paramref:`x`", ":paramref:`A.x`", ":constraintref:`AASd-001`", ":constraint AASd-001:\n    Text.",
-    ":constraint:", ":py:attr:`x`", ":unknown:`x`", ".. note::\n\n    x", ".. include:: /etc/passwd", ".. unknown::", "* a\n* b", "1. a\n2. b",
-    "A\n=\n\nB", "`x`", "``x``", "*x*", "**x**", "x_", "`x`_", "|x|", "[1]_", "a\n  b\n c", "\ta", "a\x00b", "a\rb", "é\U0001f600", "\\",
-    "a::\n\n    b", "+---+\n| a |\n+---+", ":attr:`x` :class:`A` :paramref:`y`", ".. code-block:: python\n\n    x = 1",
+    "", " ", "\n", "Do.", "Do\n\n:param x: y", "Do.\n\n:param:", "Do.\n\n:param: y", "Do.\n\n:param x:", "Do.\n\n:param x y: z", "Do.\n\n:param 1a: z",
+    "Do.\n\n:param x: a\n:param x: b", "Do.\n\n:param unknown: z", "Do.\n\n:returns:", "Do.\n\n:return: x", "Do.\n\n:returns x: y",
+    "Do.\n\n:return: x\n:returns: y", "Do.\n\n:raises X: y", "Do.\n\n:unknown: x", "Do.\n\n:a b c: x", "Do.\n\n:: x", ":param x: y", ":returns: x",
+    "Do.\n\n:param x: y\n\nMore.\n\n:param z: y", "Do.\n\n:param x:\n    :param y: z", "Do :attr:`x`.", "Do :attr:`A.x`.", "Do :attr:`~A.x`.",
+    "Do :attr:`A.x.y`.", "Do :attr:`.x`.", "Do :attr:`A.`.", "Do :attr:`x()`.", "Do :attr:`some-x`.", "Do :attr:``.", "Do :attr:`Kind.One`.",
+    "Do :attr:`Kind.Three`.", "Do :attr:`Unknown.x`.", "Do :attr:`Code.x`.", "Do :attr:`A.unknown`.", "Do :attr:`x <A.x>`.", "Do :class:`A`.",
+    "Do :class:`~A`.", "Do :class:`!A`.", "Do :class:`~!A`.", "Do :class:`.A`.", "Do :class:`a.b.A`.", "Do :class:``.", "Do :class:`A B`.",
+    "Do :class:`A <B>`.", "Do :class:`Kind`.", "Do :class:`Code`.", "Do :class:`Unknown`.", "Do :class:`Größe`.", "Do :class:`A.x`.", "Do :class:`1A`.",
+    "Do :const:`Some_text`.", "Do :const:`~Some_text`.", "Do :const:`Some_kinds`.", "Do :const:`Unknown`.", "Do :const:`a.b`.", "Do :const:`a b`.",
+    "Do :const:`.Some_text`.", "Do :const:``.", "Do :const:`A`.", "Do :paramref:`x`.", "Do :paramref:`text`.", "Do :paramref:`A.x`.",
+    "Do :paramref:`unknown`.", "Do :paramref:``.", "Do :constraintref:`AASd-001`.", "Do :constraintref:``.", "Do.\n\n:constraint AASd-001:\n    Text.",
+    "Do.\n\n:constraint AASd-001:\n    A.\n:constraint AASd-001:\n    B.", "Do.\n\n:constraint:", "Do.\n\n:constraint: x", "Do.\n\n:constraint a b: x",
+    "Do.\n\n:Constraint X:\n    :constraintref:`X`", "Do :py:attr:`x`.", "Do :unknown:`x`.", "Do :ref:`x`.", "Do :class:`A` :class:`A`.",
+    "Do.\n\n.. note::\n\n    x", "Do.\n\n.. include:: /etc/passwd", "Do.\n\n.. unknown::", "Do.\n\n.. code-block:: python\n\n    x = 1", "Do.\n\n.. image:: x.png",
+    "Do.\n\n.. raw:: html\n\n    <b>", "Do.\n\n.. |x| replace:: y", "Do.\n\n.. _target:", "Do.\n\n.. [1] footnote", "Do.\n\n.. comment", "* a\n* b",
+    "Do.\n\n* a\n* b", "Do.\n\n1. a\n2. b", "Do.\n\n* a\n\n  * b", "A\n=\n\nB", "Do.\n\nA\n=\n\nB", "Do `x`.", "Do ``x``.", "Do *x*.", "Do **x**.", "Do x_.",
+    "Do `x`_.", "Do |x|.", "Do [1]_.", "Do `x <http://a>`_.", "Do http://a.b.", "a\n  b\n c", "\ta", "a\x00b", "a\rb", "é\U0001f600", "\\", "Do \\*.",
+    "a::\n\n    b", "Do.\n\n+---+\n| a |\n+---+", "Do.\n\n=== ===\n a   b\n=== ===", "Do.\n\nterm\n    definition", "Do.\n\n| line\n| block",
+    "Do.\n\n>>> 1 + 1\n2", "Do.\n\n    quoted", "Do.\n\n-a  option", "Do.\n\n----\n\nMore.", "Do :attr:`x` :class:`A` :paramref:`y` :const:`Some_text`.",
+    "Do.\n\n:param x: :attr:`x` :class:`a.b`", "Do.\n\n:returns: :class:`a.b`", "*", "`", "``", ":", "::", "|", "_", "x_", ".. ", "..", "=", "==\n==",
 ]
 
-NAMES = ["x", "X", "_x", "__x__", "x_", "x__y", "Größe", "x1", "self", "cls", "None_", "str", "int", "bool", "float", "bytes", "bytearray",
-         "object", "List", "Optional", "type", "class_", "lambda_", "match", "len", "all", "any", "invariant", "abstract", "Enum", "DBC",
-         "string", "integer", "boolean", "number", "decimal", "real", "read_only", "A", "a", "Something", "something", "some_URL", "URL"]
+NAMES = [
+    "x", "X", "_x", "__x__", "__x", "x_", "_", "__", "x__y", "Größe", "größe", "x1", "self", "cls", "None_", "str", "int", "bool", "float", "bytes", "bytearray",
+    "object", "List", "Optional", "Set", "type", "class_", "lambda_", "match", "re", "range", "len", "all", "any", "invariant", "abstract", "Enum", "DBC",
+    "string", "integer", "boolean", "number", "decimal", "real", "read_only", "A", "B", "Kind", "Code", "One", "a", "Something", "something", "some_URL", "URL",
+    "I_x", "Must_x", "mutable_x", "over_x_or_empty", "Over_X_Or_Empty", "type_name", "model_type", "descend", "accept", "transform", "path", "error", "errors",
+    "context", "visitor", "class", "verification", "jsonization", "constants", "enhancement", "__init__", "__str__", "OLD", "result", "text", "pattern",
+    "Some_text", "Some_kinds", "matches_something", "is_special", "constant_set", "constant_str", "verification_error", "WITH_UPPER", "with__double",
+    "trailing_", "X_Y", "a" * 300,
+]
 
-BASES = ["", "A", "A, A", "A, B", "B, A", "str", "int", "str, A", "A, str", "str, int", "str, DBC", "DBC", "DBC, A", "Enum", "Enum, A",
-         "A, Enum", "object", "a.B", "A[int]", "f()", "*x", "metaclass=M", "A, metaclass=M", "Z", "Exception", "bytearray, DBC", "float, DBC", "bool, DBC"]
+BASES = [
+    "", "A", "A, A", "A, B", "B, A", "str", "int", "bool", "float", "bytearray", "bytes", "str, A", "A, str", "str, int", "str, str", "str, DBC", "DBC, str",
+    "DBC", "DBC, DBC", "DBC, A", "A, DBC", "Enum", "Enum, A", "A, Enum", "Enum, Enum", "Enum, DBC", "str, Enum", "object", "a.B", "A[int]", "f()", "*x",
+    "'A'", "1", "metaclass=M", "A, metaclass=M", "Z", "Unknown", "Exception", "bytearray, DBC", "float, DBC", "bool, DBC", "Kind", "Code", "Code, A",
+    "Code, str", "Code, Code", "A, Code", "Some_text", "matches_something", "Größe", "List", "Optional[A]", "lambda: 0", "A if x else B",
+]
+
+DECORATORS = [
+    "abstract", "abstract()", "implementation_specific", "implementation_specific()", "template", "template()", "verification", "verification()",
+    "non_mutating", "non_mutating()", "unknown", "unknown()", "serialization", "serialization()", "serialization(True)", "serialization(False)",
+    "serialization(with_model_type=True)", "serialization(with_model_type=False)", "serialization(with_model_type=None)",
+    "serialization(with_model_type=1)", "serialization(with_model_type=x)", "serialization(True, with_model_type=False)", "serialization(x=1)",
+    "serialization(**x)", "serialization(*x)", "serialization(True, False)", "invariant", "invariant()", "invariant(lambda self: True)",
+    "invariant(lambda self: True, 'd')", "invariant(lambda self: True, 'd', 3)", "invariant(condition=lambda self: True, description='d')",
+    "invariant(description='d', condition=lambda self: True)", "invariant(lambda self: True, description='d')", "invariant('d', lambda self: True)",
+    "invariant(lambda: True, 'd')", "invariant(lambda self, x: True, 'd')", "invariant(lambda x: True, 'd')", "invariant(lambda self=1: True, 'd')",
+    "invariant(lambda *self: True, 'd')", "invariant(lambda **self: True, 'd')", "invariant(lambda self, /: True, 'd')", "invariant(lambda *, self: True, 'd')",
+    "invariant(lambda self: True, f'd')", "invariant(lambda self: True, 1)", "invariant(lambda self: True, None)", "invariant(lambda self: True, '')",
+    "invariant(lambda self: True, 'd' 'e')", "invariant(lambda self: True, b'd')", "invariant(lambda self: True, description=1)",
+    "invariant(lambda self: True, 'd', enabled=True)", "invariant(f, 'd')", "invariant(None, 'd')", "invariant(True, 'd')", "invariant(**x)", "invariant(*x)",
+    "invariant(lambda self: (yield), 'd')", "invariant(lambda self: self, 'd')", "invariant(lambda self: x, 'd')", "invariant(lambda self: self.unknown > 0, 'd')",
+    "invariant(lambda self: re.match('a', self.x), 'd')", "invariant(lambda self: match('a', self.x) is not None, 'd')",
+    "invariant(lambda self: lambda: True, 'd')", "invariant(lambda self: (lambda: True)(), 'd')", "invariant(lambda self: f()(self.x), 'd')",
+    "invariant(lambda self: len(self.x) > 0, 'X is non-empty.')", "invariant(lambda self: True, 'Do :class:`a.b`.')", "invariant(lambda self: True, 'a\\nb')",
+    "invariant(lambda self: all(x for self in self.y), 'd')", "invariant(lambda self: all(re for re in self.y), 'd')",
+    "invariant(lambda self: not (self.y is not None) or len(self.y) >= 1, 'Y is either not set or non-empty.')",
+    "require", "require()", "require(lambda x: x > 0)", "require(lambda x: x > 0, 'd')", "require(lambda: True)", "require(lambda self: self.x > 0)",
+    "require(lambda unknown: unknown > 0)", "require(lambda x, unknown: True)", "require(lambda x: x > 0, description='d')", "require(condition=lambda x: x > 0)",
+    "require(lambda x: x > 0, 1)", "require(lambda x: x > 0, f'd')", "require(f)", "require(lambda x: (yield))", "require(lambda *x: True)", "require(lambda x=1: True)",
+    "require(lambda x: x > 0, 'd', 3)", "require(lambda x: x > 0, enabled=True)", "require(lambda größe: True)", "require(lambda result: result)",
+    "require(lambda OLD: OLD)", "ensure", "ensure()", "ensure(lambda result: result > 0)", "ensure(lambda result: result)", "ensure(lambda OLD: OLD.x > 0)",
+    "ensure(lambda OLD, result, self: True)", "ensure(lambda x, result: x == result)", "ensure(lambda unknown: True)", "ensure(lambda: True)",
+    "ensure(lambda result: result, 'd')", "snapshot", "snapshot()", "snapshot(lambda x: x)", "snapshot(lambda self: self.x)", "snapshot(lambda x: x, 'y')",
+    "snapshot(lambda x: x, name='y')", "snapshot(lambda x, y: x)", "snapshot(lambda x, y: x, 'z')", "snapshot(lambda: 1)", "snapshot(lambda: 1, 'z')",
+    "snapshot(lambda: 1, name='größe')", "snapshot(lambda x: x, name='1a')", "snapshot(lambda x: x, name='')", "snapshot(lambda x: x, name=1)",
+    "snapshot(lambda x: x, name=f'y')", "snapshot(capture=lambda x: x, name='y')", "snapshot(lambda unknown: unknown)", "snapshot(f)", "snapshot(lambda x: (yield))",
+    "snapshot(lambda x: x, 'OLD')", "snapshot(lambda x: x, 'self')", "snapshot(lambda x: x, 'result')", "a.b", "a.b()", "a.b.c(1)", "f()()", "x[0]", "x[0]()",
+    "lambda f: f", "(yield)", "1", "'abstract'", "None", "f'{x}'", "[abstract]", "abstract if x else template", "not abstract", "abstract, template", "Größe",
+    "größe()", "abstract(1)", "abstract(x=1)", "verification(True)", "implementation_specific(True)", "dataclass", "staticmethod", "classmethod", "property",
+]
+
+#: argument lists (rendered into ``def f(<args>): pass`` / ``lambda <args>: 0``)
+ARGUMENTS = [
+    "", "self", "self, self", "x", "self, x", "x: int", "self, x: int", "self, x: int, y: str", "self, x: int = 1", "self, x: int = None",
+    "self, x: Optional[int] = None", "self, x: Optional[int]", "self, x: int = 1, y: int", "self, x: int, x: int", "self, x: int, y: int, x: int",
+    "self, *a", "self, *a: int", "self, **k", "self, **k: int", "self, *, x: int", "self, *, x: int = 1", "self, x: int, /", "self, /, x: int", "self: int",
+    "self: A", "self=1", "self=None", "x: int, self", "x: int, self: int", "self, self_: int", "cls", "cls, x: int", "self, x: 'int'", "self, x: Set[int]",
+    "self, x: List[int, str]", "self, x: Unknown", "self, x: Optional", "self, x: 1", "self, x: ''", "self, x: 'List[int]'", "self, x: List[Optional[int, str]]",
+    "self, x: A = A", "self, x: Kind = Kind.One", "self, x: Kind = Kind.Three", "self, x: Kind = Unknown.One", "self, x: Kind = Kind.One.value",
+    "self, x: Kind = f().One", "self, x: int = -1", "self, x: int = 2 ** 70", "self, x: str = 'a'", "self, x: str = f'a'", "self, x: bool = True",
+    "self, x: float = 1.5", "self, x: bytearray = b'x'", "self, x: int = ...", "self, x: int = 1j", "self, x: List[int] = []", "self, x: int = f()",
+    "self, x: int = y", "self, x: int = lambda: 0", "self, größe: int", "self, match: int", "self, result: int", "self, OLD: int", "self, type_name: int",
+    "self, text: str", "self, x: int, y: Optional[List[str]] = None", "text: str", "text: str, other: str", "text: Optional[str]", "text: Code", "text: int",
+    "text", "text: str = 'a'", "*text", "value: int", "self, " + ", ".join(f"a{i}: int" for i in range(300)),
+]
+
+RETURNS = ["None", "int", "bool", "str", "'A'", "A", "Unknown", "Optional[int]", "List[int]", "Set[int]", "List[int, str]", "Optional", "1", "''", "'List[A]'",
+           "List[Optional[int, str]]", "f()", "...", "Kind", "Code", "Größe", "self", "None | int", "(None)", "lambda: 0"]
+
+#: elements of ``constant_set(values=[…])`` and literal values of enumerations / constants
+LITERALS = ["'a'", "'b'", "''", "1", "0", "-1", "1.5", "True", "False", "None", "b'a'", "b''", "...", "1j", "2 ** 70", "1e400", "-1.5", "f'a'", "f'{x}'", "'a' 'b'",
+            "Kind.One", "Kind.Two", "Kind.Three", "Kind.One.value", "Unknown.One", "kind.One", "A.x", "Code.x", "Kind", "x", "Some_text", "f()", "f().a", "[1]", "(1,)",
+            "{1}", "-x", "not True", "'one'", "'a\\x00'", "'\\ud800'", "'\\U0001f600'", "'é'", "'a' * 3", "1 + 1", "Kind['One']", "Kind.One if x else Kind.Two"]
+
+
+# ------------------------------------------------------------------------------------------------ parsing helpers
 
 
 def _parse_expr(src: str) -> Optional[ast.expr]:
@@ -70,6 +262,43 @@ def _parse_stmts(src: str) -> Optional[List[ast.stmt]]:
         return ast.parse(src).body
     except SyntaxError:
         return None
+
+
+def _parse_arguments(src: str) -> Optional[ast.arguments]:
+    try:
+        return ast.parse(f"def f({src}):\n    pass").body[0].args  # type: ignore
+    except SyntaxError:
+        return None
+
+
+def _parse_lambda_arguments(src: str) -> Optional[ast.arguments]:
+    try:
+        return ast.parse(f"lambda {src}: 0", mode="eval").body.args  # type: ignore
+    except SyntaxError:
+        return None
+
+
+def _parse_bases(src: str) -> Optional[Tuple[List[ast.expr], List[ast.keyword]]]:
+    try:
+        z = ast.parse(f"class Z({src}):\n    pass").body[0]
+    except SyntaxError:
+        return None
+    return z.bases, z.keywords  # type: ignore
+
+
+def _unparse(tree: ast.AST) -> Optional[str]:
+    try:
+        ast.fix_missing_locations(tree)
+        text = ast.unparse(tree)
+        with warnings.catch_warnings():
+            warnings.simplefilter("ignore")
+            compile(text, "<m>", "exec", flags=ast.PyCF_ONLY_AST)
+        return text + "\n"
+    except Exception:
+        return None
+
+
+# ------------------------------------------------------------------------------------------------ positional engine
 
 
 class _Positions(ast.NodeVisitor):
@@ -106,16 +335,6 @@ class _Positions(ast.NodeVisitor):
         if isinstance(node, ast.keyword) and node.arg is not None:
             self.names.append((node, "arg"))
         super().generic_visit(node)
-
-
-def _unparse(tree: ast.AST) -> Optional[str]:
-    try:
-        ast.fix_missing_locations(tree)
-        text = ast.unparse(tree)
-        compile(text, "<m>", "exec", flags=ast.PyCF_ONLY_AST)
-        return text + "\n"
-    except Exception:
-        return None
 
 
 def _apply(text: str, kind: str, pos: int, entry: int) -> Optional[str]:
@@ -160,12 +379,10 @@ def _apply(text: str, kind: str, pos: int, entry: int) -> Optional[str]:
         if not P.classes:
             return None
         cls = P.classes[pos % len(P.classes)]
-        src = f"class Z({BASES[entry % len(BASES)]}):\n    pass"
-        try:
-            z = ast.parse(src).body[0]
-        except SyntaxError:
+        got = _parse_bases(BASES[entry % len(BASES)])
+        if got is None:
             return None
-        cls.bases, cls.keywords = z.bases, z.keywords  # type: ignore
+        cls.bases, cls.keywords = got
     elif kind == "drop":
         if not P.bodies:
             return None
@@ -175,30 +392,49 @@ def _apply(text: str, kind: str, pos: int, entry: int) -> Optional[str]:
         del body[k]
         if not body:
             body.append(ast.Pass())
+    elif kind == "dup":
+        if not P.bodies:
+            return None
+        parent, field = P.bodies[pos % len(P.bodies)]
+        body = getattr(parent, field)
+        k = (pos // max(1, len(P.bodies))) % len(body)
+        body.insert(k, body[k])
+    elif kind == "swap":
+        if not P.bodies:
+            return None
+        parent, field = P.bodies[pos % len(P.bodies)]
+        body = getattr(parent, field)
+        if len(body) < 2:
+            return None
+        k = (pos // max(1, len(P.bodies))) % (len(body) - 1)
+        body[k], body[k + 1] = body[k + 1], body[k]
     else:
         raise ValueError(kind)
     return _unparse(tree)
 
 
-KINDS = [("expr", EXPRS), ("stmt-insert", STMTS), ("stmt-replace", STMTS), ("doc", DOCS), ("name", NAMES), ("bases", BASES), ("drop", [0])]
+KINDS = [("expr", EXPRS), ("stmt-insert", STMTS), ("stmt-replace", STMTS), ("doc", DOCS), ("name", NAMES), ("bases", BASES), ("drop", [0]),
+         ("dup", [0]), ("swap", [0])]
+_WEIGHTS = [5, 3, 2, 2, 1, 1, 1, 1, 1]
 
 
 def counts(text: str) -> dict:
     P = _Positions()
     P.visit(ast.parse(text))
     nb = sum(len(getattr(p, f)) + 1 for p, f in P.bodies)
-    return {"expr": len(P.exprs), "stmt-insert": nb, "stmt-replace": nb, "doc": len(P.docs), "name": len(P.names), "bases": len(P.classes), "drop": nb}
+    return {"expr": len(P.exprs), "stmt-insert": nb, "stmt-replace": nb, "doc": len(P.docs), "name": len(P.names), "bases": len(P.classes), "drop": nb,
+            "dup": nb, "swap": nb}
 
 
 def random_mutant(text: str, rng: Any) -> Optional[Tuple[str, str]]:
     """(description, mutated text) or None."""
-    kind, cat = rng.choices(KINDS, weights=[5, 3, 2, 2, 1, 1, 1])[0]
+    kind, cat = rng.choices(KINDS, weights=_WEIGHTS)[0]
     pos = rng.randrange(10_000)
     entry = rng.randrange(len(cat))
     out = _apply(text, kind, pos, entry)
     if out is None:
         return None
-    return f"{kind}@{pos}:{cat[entry] if kind != 'drop' else ''}", out
+    return f"{kind}@{pos}:{cat[entry] if len(cat) > 1 else ''}", out
 
 
 def enumerate_mutants(text: str, kinds: Optional[List[str]] = None) -> Iterator[Tuple[str, str]]:
@@ -211,4 +447,384 @@ def enumerate_mutants(text: str, kinds: Optional[List[str]] = None) -> Iterator[
             for entry in range(len(cat)):
                 out = _apply(text, kind, pos, entry)
                 if out is not None:
-                    yield f"{kind}@{pos}:{cat[entry] if kind != 'drop' else ''}", out
+                    yield f"{kind}@{pos}:{cat[entry] if len(cat) > 1 else ''}", out
+
+
+# ------------------------------------------------------------------------------------------------ role engine
+
+# A slot is (how, parent, field, index):
+#   how = "expr"   : getattr(parent, field)[index] (or the attribute itself if index is None) is an expression to replace
+#   how = "exprs"  : getattr(parent, field) is a list of expressions; an entry is INSERTED at index
+#   how = "stmts"  : getattr(parent, field) is a statement list; entries are inserted at / replace index
+#   how = "doc"    : parent is an ast.Constant holding a docstring
+#   how = "name"   : getattr(parent, field) is an identifier (defining occurrence)
+#   how = "args"   : parent.args is an ast.arguments of a function; "largs" of a lambda
+#   how = "bases"  : parent is a ClassDef
+Slot = Tuple[str, ast.AST, str, Optional[int]]
+
+_CONTRACTS = ("require", "ensure", "snapshot")
+
+
+def _is_doc(stmt: ast.AST) -> bool:
+    return isinstance(stmt, ast.Expr) and isinstance(stmt.value, ast.Constant) and isinstance(stmt.value.value, str)
+
+
+def _call_name(node: ast.AST) -> Optional[str]:
+    if isinstance(node, ast.Call) and isinstance(node.func, ast.Name):
+        return node.func.id
+    return None
+
+
+def slots(tree: ast.Module) -> Dict[str, List[Slot]]:
+    """Classify the positions of a (valid) meta-model by the role they play for the front end."""
+    R: Dict[str, List[Slot]] = {}
+
+    def add(role: str, how: str, parent: ast.AST, field: str = "", index: Optional[int] = None) -> None:
+        R.setdefault(role, []).append((how, parent, field, index))
+
+    def decorators(node: Any, owner: str) -> None:
+        add(f"{owner}-decorator-insert", "exprs", node, "decorator_list", 0)
+        add(f"{owner}-decorator-insert", "exprs", node, "decorator_list", len(node.decorator_list))
+        for i, d in enumerate(node.decorator_list):
+            add(f"{owner}-decorator", "expr", node, "decorator_list", i)
+            cn = _call_name(d)
+            if cn == "invariant":
+                for j, a in enumerate(d.args):  # type: ignore
+                    add("invariant-condition" if j == 0 else "invariant-description-expr", "expr", d, "args", j)
+                    if j == 0 and isinstance(a, ast.Lambda):
+                        add("invariant-body", "expr", a, "body")
+                        add("invariant-lambda-args", "largs", a)
+                    if j == 1 and isinstance(a, ast.Constant):
+                        add("invariant-description", "doc", a)
+            elif cn in _CONTRACTS:
+                for j, a in enumerate(d.args):  # type: ignore
+                    if j == 0:
+                        add("contract-condition", "expr", d, "args", j)
+                        if isinstance(a, ast.Lambda):
+                            add("contract-body", "expr", a, "body")
+                            add("contract-lambda-args", "largs", a)
+            elif cn == "serialization":
+                for kw in d.keywords:  # type: ignore
+                    add("serialization-value", "expr", kw, "value")
+
+    def signature(fn: ast.FunctionDef, owner: str) -> None:
+        add(f"{owner}-name", "name", fn, "name")
+        add(f"{owner}-args", "args", fn)
+        for a in fn.args.args:
+            if a.annotation is not None:
+                add(f"{owner}-argument-annotation", "expr", a, "annotation")
+            add(f"{owner}-argument-name", "name", a, "arg")
+        for i, _ in enumerate(fn.args.defaults):
+            add(f"{owner}-argument-default", "expr", fn.args, "defaults", i)
+        add(f"{owner}-returns", "expr", fn, "returns")
+        if fn.body and _is_doc(fn.body[0]):
+            add(f"{owner}-doc", "doc", fn.body[0].value)  # type: ignore
+        decorators(fn, owner)
+
+    def body_exprs(stmts: Sequence[ast.stmt], owner: str) -> None:
+        for s in stmts:
+            if isinstance(s, ast.Assign):
+                add(f"{owner}-assign-value", "expr", s, "value")
+                add(f"{owner}-assign-target", "expr", s, "targets", 0)
+            elif isinstance(s, ast.Return) and s.value is not None:
+                add(f"{owner}-return-value", "expr", s, "value")
+                v = s.value
+                if isinstance(v, ast.Compare) and isinstance(v.left, ast.Call):
+                    add(f"{owner}-match-call", "expr", v, "left")
+                    for i, _ in enumerate(v.left.args):
+                        add(f"{owner}-match-arg", "expr", v.left, "args", i)
+            elif isinstance(s, ast.Expr) and isinstance(s.value, ast.Call):
+                add(f"{owner}-call", "expr", s, "value")
+                add(f"{owner}-call-func", "expr", s.value, "func")
+                for i, _ in enumerate(s.value.args):
+                    add(f"{owner}-call-arg", "expr", s.value, "args", i)
+
+    add("module-body", "stmts", tree, "body")
+    if tree.body and _is_doc(tree.body[0]):
+        add("module-doc", "doc", tree.body[0].value)  # type: ignore
+    for node in tree.body:
+        if isinstance(node, ast.ClassDef):
+            is_enum = any(isinstance(b, ast.Name) and b.id == "Enum" for b in node.bases)
+            owner = "enum" if is_enum else "class"
+            add(f"{owner}-name", "name", node, "name")
+            add(f"{owner}-bases", "bases", node)
+            add(f"{owner}-base-insert", "exprs", node, "bases", len(node.bases))
+            for i, _ in enumerate(node.bases):
+                add(f"{owner}-base", "expr", node, "bases", i)
+            add(f"{owner}-body", "stmts", node, "body")
+            decorators(node, owner)
+            if node.body and _is_doc(node.body[0]):
+                add(f"{owner}-doc", "doc", node.body[0].value)  # type: ignore
+            for j, stmt in enumerate(node.body):
+                prev = node.body[j - 1] if j > 0 else None
+                if _is_doc(stmt) and isinstance(prev, (ast.AnnAssign, ast.Assign)):
+                    add("literal-doc" if is_enum else "property-doc", "doc", stmt.value)  # type: ignore
+                if isinstance(stmt, ast.AnnAssign):
+                    add("property-annotation", "expr", stmt, "annotation")
+                    add("property-target", "expr", stmt, "target")
+                    add("property-value", "expr", stmt, "value")
+                    if isinstance(stmt.target, ast.Name):
+                        add("property-name", "name", stmt.target, "id")
+                elif isinstance(stmt, ast.Assign):
+                    add("literal-value", "expr", stmt, "value")
+                    add("literal-target", "expr", stmt, "targets", 0)
+                    if isinstance(stmt.targets[0], ast.Name):
+                        add("literal-name", "name", stmt.targets[0], "id")
+                elif isinstance(stmt, ast.FunctionDef):
+                    m = "ctor" if stmt.name == "__init__" else "method"
+                    signature(stmt, m)
+                    add(f"{m}-body", "stmts", stmt, "body")
+                    body_exprs(stmt.body, m)
+        elif isinstance(node, ast.FunctionDef):
+            signature(node, "function")
+            add("function-body", "stmts", node, "body")
+            body_exprs(node.body, "function")
+        elif isinstance(node, ast.AnnAssign):
+            add("constant-annotation", "expr", node, "annotation")
+            add("constant-target", "expr", node, "target")
+            add("constant-value", "expr", node, "value")
+            if isinstance(node.target, ast.Name):
+                add("constant-name", "name", node.target, "id")
+            if isinstance(node.value, ast.Call):
+                call = node.value
+                add("constant-func", "expr", call, "func")
+                for i, _ in enumerate(call.args):
+                    add("constant-positional", "expr", call, "args", i)
+                for kw in call.keywords:
+                    add(f"constant-kw-{kw.arg}", "expr", kw, "value")
+                    add("constant-kw-name", "name", kw, "arg")
+                    if kw.arg == "description" and isinstance(kw.value, ast.Constant):
+                        add("constant-description", "doc", kw.value)
+                    if kw.arg in ("values", "superset_of") and isinstance(kw.value, ast.List):
+                        role = "set-element" if kw.arg == "values" else "superset-element"
+                        add(f"{role}-insert", "exprs", kw.value, "elts", len(kw.value.elts))
+                        for i, _ in enumerate(kw.value.elts):
+                            add(role, "expr", kw.value, "elts", i)
+        elif isinstance(node, ast.Assign):
+            add("module-assign-value", "expr", node, "value")
+            add("module-assign-target", "expr", node, "targets", 0)
+    return R
+
+
+#: roles whose whole role specific catalogue is enumerated in the quick tier; (role -> stride) for a fixed stride; the others get a rotating
+#: stride sample of QUICK_SAMPLE entries there.  The thorough tier enumerates every role completely.
+QUICK_FULL_ROLES = {
+    "class-decorator", "invariant-body", "property-annotation", "ctor-args", "class-bases", "ctor-body", "function-body", "module-body", "enum-body",
+    "method-doc", "set-element", "ctor-call-func",
+}
+QUICK_STRIDES = {"method-decorator": 2, "class-name": 2, "class-doc": 2, "function-returns": 3, "function-args": 3, "literal-value": 3,
+                 "function-decorator": 4, "invariant-lambda-args": 3, "ctor-call-arg": 3, "superset-element": 3, "literal-doc": 4, "constant-description": 4}
+QUICK_SAMPLE = 10  # entries per stride-sampled role in the quick tier
+
+#: the slot taken for a role where the first one is not the most telling (the class with bases; the set of enumeration literals)
+_PREFERRED_SLOT = {"class-bases": -1, "class-base": -1, "class-base-insert": -1, "class-name": -1}
+
+_CTOR_STMT_PREFIXES = ("self", "A.", "B.", "super", "str.", "int.", "Kind.", "Unknown.", "DBC.", "a.b", "f()", "pass", "...", "'", "f'", "x", "del", "return",
+                       "raise", "assert", "if", "for", "while", "with", "try", "yield", "await", "lambda", "1", "None", "global")
+_FUNCTION_STMT_PREFIXES = ("return", "pattern", "text", "match", "re ", "self.pattern", "'", "f'", "b'", "x", "1", "None", "pass", "...", "f(", "raise",
+                           "assert", "if", "for", "del")
+_ENUM_STMT_PREFIXES = ("One", "Two", "Three", "x = ", "x: ", "x += ", "pass", "...", "'", "f'", "1", "def f", "class Z:", "self.x = x", "del", "return 1", "from typing import List")
+_MODULE_STMT_PREFIXES = ("class", "@", "def", "X", "__", "from", "import", "Kind", "A:", "Some_text", "matches", "(X)", "async", "type", "match x")
+
+
+def _relevant_stmts(role: str) -> List[str]:
+    """The statements of the catalogue that make sense in the statement list of the role (used in the quick tier only)."""
+    prefixes = {"ctor-body": _CTOR_STMT_PREFIXES, "function-body": _FUNCTION_STMT_PREFIXES, "method-body": _FUNCTION_STMT_PREFIXES,
+                "module-body": _MODULE_STMT_PREFIXES, "enum-body": _ENUM_STMT_PREFIXES}.get(role)
+    if prefixes is None:
+        return STMTS
+    return [s for s in STMTS if s.startswith(prefixes)]
+
+
+def _catalogue_for(role: str, how: str, full: bool) -> List[Tuple[str, Callable[[str], Any]]]:
+    """(source, parser) pairs to try in a slot of the given role; `full` adds the generic expression catalogues to the role specific one."""
+    P = _parse_expr
+    if how == "doc":
+        return [(d, lambda s: s) for d in DOCS]
+    if how == "name":
+        return [(n, lambda s: s) for n in NAMES]
+    if how == "stmts":
+        return [(s, _parse_stmts) for s in (STMTS if full else _relevant_stmts(role))]
+    if how == "args":
+        return [(a, _parse_arguments) for a in ARGUMENTS]
+    if how == "largs":
+        return [(a, _parse_lambda_arguments) for a in ARGUMENTS]
+    if how == "bases":
+        return [(b, _parse_bases) for b in BASES]
+    # expressions: a role specific catalogue first, then the generic ones
+    if role.endswith("-decorator") or role.endswith("-decorator-insert"):
+        return [(e, P) for e in DECORATORS + (CORE_EXPRS if full else [])]
+    if role.endswith("-returns"):
+        return [(e, P) for e in RETURNS + TYPE_EXPRS + (CORE_EXPRS if full else [])]
+    if "annotation" in role:
+        return [(e, P) for e in TYPE_EXPRS + (CORE_EXPRS if full else CORE_EXPRS[:24])]
+    if role in ("invariant-body", "contract-body", "function-return-value", "method-return-value", "function-match-call", "ctor-assign-value",
+                "function-assign-value", "method-assign-value", "invariant-condition", "contract-condition", "function-match-arg"):
+        return [(e, P) for e in CORE_EXPRS + RULE_EXPRS + (TYPE_EXPRS if full else [])]
+    if role in ("set-element", "set-element-insert", "superset-element", "superset-element-insert", "literal-value", "constant-kw-value",
+                "constant-kw-values", "constant-kw-superset_of", "constant-kw-description", "constant-positional", "module-assign-value",
+                "invariant-description-expr", "serialization-value") or role.endswith("-argument-default"):
+        return [(e, P) for e in LITERALS + (CORE_EXPRS if full else CORE_EXPRS[:24])]
+    if role.endswith("-base") or role.endswith("-base-insert"):
+        return [(e, P) for e in CORE_EXPRS + TYPE_EXPRS[:16]]
+    return [(e, P) for e in CORE_EXPRS + (RULE_EXPRS if full else [])]
+
+
+def _set(slot: Slot, new: Any, mode: str = "replace") -> bool:
+    how, parent, field, index = slot
+    if how == "expr":
+        if index is None:
+            setattr(parent, field, new)
+        else:
+            getattr(parent, field)[index] = new
+    elif how == "exprs":
+        getattr(parent, field).insert(index, new)
+    elif how == "stmts":
+        body = getattr(parent, field)
+        k = (index or 0) % (len(body) + 1)
+        if mode == "insert":
+            body[k:k] = new
+        elif mode == "append":
+            body.extend(new)
+        else:
+            k = k % len(body)
+            body[k : k + 1] = new
+    elif how == "doc":
+        parent.value = new  # type: ignore
+    elif how == "name":
+        setattr(parent, field, new)
+    elif how in ("args", "largs"):
+        parent.args = new  # type: ignore
+    elif how == "bases":
+        parent.bases, parent.keywords = new  # type: ignore
+    else:
+        raise ValueError(how)
+    return True
+
+
+def _rename_everywhere(tree: ast.AST, old: str, new: str) -> None:
+    for n in ast.walk(tree):
+        for attr in ("id", "attr", "arg", "name"):
+            if isinstance(getattr(n, attr, None), str) and getattr(n, attr) == old and not isinstance(n, (ast.alias, ast.Constant)):
+                setattr(n, attr, new)
+
+
+def role_names(text: str) -> List[str]:
+    return sorted(slots(ast.parse(text)))
+
+
+def apply_role(text: str, role: str, which: int, entry: int, mode: str = "replace", full: bool = True) -> Optional[Tuple[str, str]]:
+    """Put the `entry`-th catalogue item of the role into its `which`-th slot.  mode: replace / insert / append (statement lists),
+    rename-all (names: every occurrence of the old identifier is renamed).  Returns (label, text) or None."""
+    tree = ast.parse(text)
+    S = slots(tree).get(role)
+    if not S:
+        return None
+    slot = S[which % len(S)]
+    if mode == "dup":
+        seq = getattr(slot[1], slot[2])
+        k = (which // len(S)) % len(seq) if seq else None
+        if slot[0] not in ("stmts", "exprs") or k is None:
+            return None
+        seq.insert(k, seq[k])
+        out = _unparse(tree)
+        return None if out is None else (f"{role}[{which % len(S)}]/dup@{k}", out)
+    cat = _catalogue_for(role, slot[0], full)
+    src, parser = cat[entry % len(cat)]
+    new = parser(src)
+    if new is None:
+        return None
+    if slot[0] == "stmts":
+        slot = (slot[0], slot[1], slot[2], which // len(S))
+    if slot[0] == "name" and mode == "rename-all":
+        old = getattr(slot[1], slot[2])
+        _rename_everywhere(tree, old, new)
+    else:
+        _set(slot, new, mode)
+    out = _unparse(tree)
+    if out is None:
+        return None
+    return f"{role}[{which}]{'/' + mode if mode != 'replace' else ''}:{src[:60]}", out
+
+
+def role_catalogue_size(text: str, role: str, full: bool = True) -> int:
+    S = slots(ast.parse(text)).get(role)
+    if not S:
+        return 0
+    return len(_catalogue_for(role, S[0][0], full))
+
+
+def _doc_aware_index(body: Sequence[ast.stmt]) -> int:
+    return 1 if body and _is_doc(body[0]) and len(body) > 0 else 0
+
+
+def plan_roles(text: str, tier: str = "quick", roles: Optional[Sequence[str]] = None) -> List[Tuple[str, int, int, str]]:
+    """The (role, which, entry, mode) tuples of the seed independent role x catalogue slice.
+
+    quick: first slot of every role; the whole role specific catalogue for QUICK_FULL_ROLES, a rotating stride sample of
+    QUICK_SAMPLE entries for the others; statement lists: one insertion right after the docstring (module/class/enum: append).
+    thorough: first two slots of every role, whole catalogue incl. the generic expression catalogues; statement lists: insert
+    first / insert after the docstring / replace the first statement after the docstring / append; names: alone and everywhere."""
+    tree = ast.parse(text)
+    S = slots(tree)
+    full = tier != "quick"
+    plan: List[Tuple[str, int, int, str]] = []
+    for r_idx, role in enumerate(sorted(S)):
+        if roles is not None and role not in roles:
+            continue
+        how = S[role][0][0]
+        n = len(_catalogue_for(role, how, full))
+        nslots = len(S[role])
+        first = _PREFERRED_SLOT.get(role, 0) % nslots
+        if full or role in QUICK_FULL_ROLES:
+            entries = list(range(n))
+        else:
+            stride = QUICK_STRIDES.get(role, max(1, n // QUICK_SAMPLE))
+            entries = list(range(r_idx % stride, n, stride))
+        for w in (first,):
+            whiches: List[Tuple[int, str]] = []
+            # "twice" constructs: every statement of the list / every element of the expression list duplicated in place
+            if how == "stmts":
+                plan += [(role, w + nslots * k, 0, "dup") for k in range(len(getattr(S[role][w][1], S[role][w][2])))]
+            elif how == "exprs":
+                plan += [(role, w + nslots * k, 0, "dup") for k in range(len(getattr(S[role][w][1], S[role][w][2])))]
+            if how == "stmts":
+                body = getattr(S[role][w][1], S[role][w][2])
+                k = _doc_aware_index(body)
+                if not full:
+                    whiches = [(w, "append")] if role in ("module-body", "class-body", "enum-body") else [(w + nslots * k, "insert")]
+                else:
+                    whiches = [(w + nslots * k, "insert"), (w + nslots * k, "replace"), (w, "append")]
+            elif how == "name":
+                whiches = [(w, "replace"), (w, "rename-all")] if full else [(w, "rename-all" if r_idx % 2 else "replace")]
+            else:
+                whiches = [(w, "replace")]
+            for which, mode in whiches:
+                plan += [(role, which, e, mode) for e in entries]
+    return plan
+
+
+def enumerate_roles(text: str, tier: str = "quick", roles: Optional[Sequence[str]] = None) -> Iterator[Tuple[str, str]]:
+    """role x catalogue over the model (seed independent), see `plan_roles`."""
+    full = tier != "quick"
+    for role, which, entry, mode in plan_roles(text, tier, roles):
+        got = apply_role(text, role, which, entry, mode, full)
+        if got is not None:
+            yield got
+
+
+def random_role_mutant(text: str, rng: Any) -> Optional[Tuple[str, str]]:
+    tree = ast.parse(text)
+    S = slots(tree)
+    if not S:
+        return None
+    role = rng.choice(sorted(S))
+    how = S[role][0][0]
+    which = rng.randrange(len(S[role]) * (4 if how == "stmts" else 1))
+    n = len(_catalogue_for(role, how, True))
+    mode = "replace"
+    if how == "stmts":
+        mode = rng.choice(["insert", "replace", "append"])
+    elif how == "name":
+        mode = rng.choice(["replace", "rename-all"])
+    return apply_role(text, role, which, rng.randrange(n), mode, True)
